@@ -182,7 +182,7 @@ def load_findings():
 _SAN_RE = re.compile(r"(ERROR: \w+Sanitizer: [^\n]*|runtime error: [^\n]*|WARNING: ThreadSanitizer: [^\n]*)")
 
 
-def run_histories(binary, mode_args, hist_path, trace_path, n_hist, timeout=1800, env=None, max_restarts=5000):
+def run_histories(binary, mode_args, hist_path, trace_path, n_hist, timeout=1800, env=None, max_restarts=400):
     """Run `binary mode_args --from K` with histories on stdin until all n_hist are done.
     The harness prints {"e":"HistDone","i":K} after finishing history K (0-based)."""
     start = 0
@@ -208,7 +208,8 @@ def run_histories(binary, mode_args, hist_path, trace_path, n_hist, timeout=1800
         start = max(last_done + 2, start + 1)
         restarts += 1
         if restarts > max_restarts:
-            raise Infra("harness keeps crashing (%d restarts); last: %s" % (restarts, what[:300]))
+            # the recorded crash events are judged by the trace spec; the remaining histories are not executed
+            break
     if os.path.exists(raw):
         os.remove(raw)
     return crashes
